@@ -16,7 +16,9 @@ R: each behaviour becomes a program of nested `with` blocks (real exceptions, re
    c18's recording network, one event per step; the prediction is attached to the event and ContextReplayTrace.tla
    (EXTENDS ContextTrace: every clause of C18 stays live) demands MatchesPrediction: the datagrams' chip, core,
    application id / board and connection, the stop signals and the arguments the controller reports equal what the
-   design predicted.
+   design predicted.  In 40% of the programs the driver also hangs recording functions of the caller's own on half of
+   the blocks (Context.before_close, before entering / inside the body; "cb" events, no prediction): what the design
+   predicts for a leave - the stop signal above all - must hold with them.
 
 No oracle here: the file translates a printed behaviour into calls and copies the printed predictions into the events.
 """
@@ -170,7 +172,7 @@ def setup_for(drv, hist, rng, observe=None):
     return dict(init=init, w=w, h=h, root=root, up=[c for c in cands if rng.random() < 0.6], observe=observe)
 
 
-def replay_one(drv, hist, rng, label="tlc-simulated", observe=None, discover=None):
+def replay_one(drv, hist, rng, label="tlc-simulated", observe=None, discover=None, callbacks=None):
     program, preds = to_program(drv, hist)
     setup = setup_for(drv, hist, rng, observe)
     lead = 0
@@ -178,12 +180,21 @@ def replay_one(drv, hist, rng, label="tlc-simulated", observe=None, discover=Non
         # connections are discovered first in half of the programs (the driver's step, not the simulator's)
         program.insert(0, drv.make_call("discover_connections", rng, dict(x=0, y=0), "omit"))
         lead = 1
+    if rng.random() < (0.4 if callbacks is None else callbacks):
+        # the caller hangs recording functions of their own on some of the blocks (before_close): the driver's
+        # step too; the design's prediction of what a leave does is the same with them
+        c18.decorate(drv, program, rng, None, 0.5, pool=[], raising=False)
     tr = c18.execute(drv, setup, program, label)
     tr.pop("opened")
     preds = [["none"]] * lead + preds
     # one event per step, in the order of the history; whatever does not line up is judged as it falls
-    for i, ev in enumerate(tr["ev"]):
+    i = 0
+    for ev in tr["ev"]:
+        if ev[0] == "cb":
+            ev.append(["none"])
+            continue
         ev.append(preds[i] if i < len(preds) else ["none"])
+        i += 1
     tr["predicted_steps"] = len(preds) - lead
     return tr
 
@@ -262,8 +273,8 @@ def selftest(chk):
     if not good or not bgood:
         raise MachineryError("c18_replay selftest: no simulated behaviour with an application block, an accepted and a "
                              "refused call and an exception")
-    mgood = replay_one(drivers["mc"], good[0], rng, "selftest", observe=True, discover=False)
-    bgood = replay_one(drivers["bmp"], bgood[0], rng, "selftest", observe=True)
+    mgood = replay_one(drivers["mc"], good[0], rng, "selftest", observe=True, discover=False, callbacks=0)
+    bgood = replay_one(drivers["bmp"], bgood[0], rng, "selftest", observe=True, callbacks=0)
     if any(e[-1] == ["none"] for e in mgood["ev"] + bgood["ev"]):
         raise MachineryError("c18_replay selftest: an event without a prediction")
 
